@@ -1051,3 +1051,310 @@ pub fn run_c16(ctx: &Ctx, acc: &Mutex<Acc>) -> Option<Violation> {
 pub fn replay_c16(case: serde_json::Value) -> R<CaseMeta> {
     c16_run(&serde_json::from_value(case).expect("harness: bad C16 case"))
 }
+
+// =============================================================================================
+// C08 — planted damage (in-process)
+
+pub const C08_PLANT_RULE: &str = "planted damage: a store produced by a generated history is closed cleanly; then generated damage is planted — orphan blobs at canonical paths (also contents that share a prefix directory with live blobs), stray files directly under cas/, under cas/xx/ and under cas/xx/yy/ with non-hex or wrong-length names, leftover files in staging/, referenced blobs deleted / truncated / extended / altered at the same length, and (separately counted class 'alias') files whose last three path components concatenate to 64 hex digits but that are not at the canonical location (shifted split, upper-case); both verify_blob_integrity values. Oracle: OrphanStats (orphaned, missing, corrupted, invalid, staging, total_blobs) == independent diff of the directory against the model; then one generated action: delete_orphans (counters == set sizes, no errors, afterwards no orphan/invalid/staging file remains and every referenced blob that existed is untouched), quarantine_orphans (every orphan moved to dir/<hex> with its bytes, referenced blobs untouched), or delete_orphan(h) for a reported and for a non-reported hash (true iff reported and unreferenced). non-trivial = >=2 damage classes at once, or an orphan sharing a directory level with a referenced blob; distinct by case hash";
+
+#[derive(Clone, Debug, Serialize, Deserialize, PartialEq)]
+pub enum Dmg {
+    Orphan { id: u8 },
+    StrayL0 { name: String },
+    StrayL1 { name: String },
+    StrayL2 { name: String },
+    Staging { name: String },
+    DeleteBlob { k: u8 },
+    Truncate { k: u8 },
+    Extend { k: u8 },
+    Alter { k: u8 },
+    AliasShifted { id: u8 },
+    AliasUpper { id: u8 },
+    AliasUpperOfLive { k: u8 },
+}
+
+#[derive(Clone, Debug, Serialize, Deserialize)]
+pub enum PlantAction {
+    Delete,
+    Quarantine,
+    DeleteOne { reported: bool },
+}
+
+#[derive(Clone, Debug, Serialize, Deserialize)]
+pub struct PlantCase {
+    pub puts: Vec<(u8, u8)>,
+    pub damage: Vec<Dmg>,
+    pub verify: bool,
+    pub action: PlantAction,
+}
+
+fn plant_run(case: &PlantCase) -> R<CaseMeta> {
+    let scratch = Scratch::new("c08p");
+    let db = scratch.db();
+    let mut m = CaseMeta { evals: 1, ..Default::default() };
+    let keys: Vec<String> = vec!["a".into(), "b".into(), "c".into(), "dd".into(), "".into()];
+    let mut model: BTreeMap<String, Bytes> = BTreeMap::new();
+    {
+        let cas = Cas::<String>::open(&db, cfg_n(100, false)).map_err(|e| Fail::new("open-err", format!("{e:?}")))?;
+        for (k, c) in &case.puts {
+            let key = keys[(*k as usize) % keys.len()].clone();
+            let content = pool_content((*c as usize) % 5);
+            let mut tx = cas.put(key.clone()).map_err(|e| Fail::new("op-err/put", format!("{e:?}")))?;
+            tx.write(&content).map_err(|e| Fail::new("op-err/write", format!("{e:?}")))?;
+            tx.finish().map_err(|e| Fail::new("op-err/finish", format!("{e:?}")))?;
+            model.insert(key, content);
+        }
+    }
+    let live: Vec<(String, [u8; 32], u64)> = model.iter().map(|(k, v)| (k.clone(), b3(v), v.len() as u64)).collect();
+    let referenced: BTreeMap<[u8; 32], u64> = live.iter().map(|(_, h, s)| (*h, *s)).collect();
+    let casdir = db.join("cas");
+    let mut alias = false;
+    let mut classes = std::collections::BTreeSet::new();
+    let orphan_content = |id: u8| gen_content(5000 + id as u64, 10 + id as usize * 7);
+    let live_of = |k: u8| -> Option<(String, [u8; 32], u64)> { if live.is_empty() { None } else { Some(live[(k as usize) % live.len()].clone()) } };
+    for d in &case.damage {
+        match d {
+            Dmg::Orphan { id } => {
+                let c = orphan_content(*id);
+                let h = b3(&c);
+                if referenced.contains_key(&h) {
+                    continue;
+                }
+                let p = casdir.join(rel_path_of(&h));
+                std::fs::create_dir_all(p.parent().unwrap()).expect("harness: mkdir");
+                std::fs::write(&p, &c).expect("harness: plant");
+                classes.insert("orphan");
+            }
+            Dmg::StrayL0 { name } => {
+                std::fs::write(casdir.join(format!("s0-{name}")), b"x").expect("harness: plant");
+                classes.insert("stray");
+            }
+            Dmg::StrayL1 { name } => {
+                std::fs::create_dir_all(casdir.join("ab")).expect("harness: mkdir");
+                std::fs::write(casdir.join("ab").join(format!("s1-{name}")), b"xy").expect("harness: plant");
+                classes.insert("stray");
+            }
+            Dmg::StrayL2 { name } => {
+                let dir = match live.first() {
+                    Some((_, h, _)) => casdir.join(&rel_path_of(h)[..5]),
+                    None => casdir.join("ab/cd"),
+                };
+                std::fs::create_dir_all(&dir).expect("harness: mkdir");
+                // not 60 lowercase hex digits
+                std::fs::write(dir.join(format!("{name}zz")), b"xyz").expect("harness: plant");
+                classes.insert("stray");
+            }
+            Dmg::Staging { name } => {
+                std::fs::write(db.join("staging").join(format!(".tmp{name}")), b"partial").expect("harness: plant");
+                classes.insert("staging");
+            }
+            Dmg::DeleteBlob { k } => {
+                if let Some((_, h, _)) = live_of(*k) {
+                    let _ = std::fs::remove_file(casdir.join(rel_path_of(&h)));
+                    classes.insert("missing");
+                }
+            }
+            Dmg::Truncate { k } | Dmg::Extend { k } | Dmg::Alter { k } => {
+                if let Some((_, h, _)) = live_of(*k) {
+                    let p = casdir.join(rel_path_of(&h));
+                    if let Ok(mut data) = std::fs::read(&p) {
+                        match d {
+                            Dmg::Truncate { .. } => {
+                                if data.is_empty() {
+                                    continue;
+                                }
+                                data.pop();
+                            }
+                            Dmg::Extend { .. } => data.push(7),
+                            _ => {
+                                if data.is_empty() {
+                                    continue;
+                                }
+                                let l = data.len();
+                                data[l / 2] ^= 0x40;
+                            }
+                        }
+                        std::fs::write(&p, &data).expect("harness: plant");
+                        classes.insert("corrupt");
+                    }
+                }
+            }
+            Dmg::AliasShifted { id } => {
+                let c = orphan_content(*id);
+                let hx = hexs(&b3(&c));
+                let p = casdir.join(&hx[0..3]).join(&hx[3..4]).join(&hx[4..]);
+                std::fs::create_dir_all(p.parent().unwrap()).expect("harness: mkdir");
+                std::fs::write(&p, &c).expect("harness: plant");
+                alias = true;
+            }
+            Dmg::AliasUpper { id } => {
+                let c = orphan_content(*id);
+                let hx = hexs(&b3(&c)).to_uppercase();
+                if hx == hx.to_lowercase() {
+                    continue;
+                }
+                let p = casdir.join(&hx[0..2]).join(&hx[2..4]).join(&hx[4..]);
+                std::fs::create_dir_all(p.parent().unwrap()).expect("harness: mkdir");
+                std::fs::write(&p, &c).expect("harness: plant");
+                alias = true;
+            }
+            Dmg::AliasUpperOfLive { k } => {
+                if let Some((_, h, _)) = live_of(*k) {
+                    let hx = hexs(&h).to_uppercase();
+                    if hx == hx.to_lowercase() {
+                        continue;
+                    }
+                    let p = casdir.join(&hx[0..2]).join(&hx[2..4]).join(&hx[4..]);
+                    std::fs::create_dir_all(p.parent().unwrap()).expect("harness: mkdir");
+                    std::fs::write(&p, b"alias of a live blob").expect("harness: plant");
+                    let _ = std::fs::remove_file(casdir.join(rel_path_of(&h)));
+                    alias = true;
+                    classes.insert("missing");
+                }
+            }
+        }
+    }
+    let pre = if alias { "alias/" } else { "" };
+    let wrap = |f: Fail| Fail::new(format!("{pre}{}", f.sig), f.detail);
+    let mut cfg = cfg_n(100, true);
+    cfg.verify_blob_integrity = case.verify;
+    let (cas, stats) = match Cas::<String>::open_with_recover(&db, cfg) {
+        Ok((c, Some(s))) => (c, s),
+        Ok((_, None)) => panic!("harness: no OrphanStats although scanning was requested"),
+        Err(e) => return Err(wrap(Fail::new(format!("scan/open_with_recover-fails/{}", err_path(&e)), format!("{e:?}")))),
+    };
+    let exp = crate::e2::expected_scan(&db, &referenced, case.verify);
+    crate::e2::compare_scan(&stats, &exp, "planted store").map_err(wrap)?;
+    let shares_dir = exp.orphaned.iter().any(|o| referenced.keys().any(|r| r[0] == o[0]));
+    match &case.action {
+        PlantAction::Delete => {
+            let res = stats.delete_orphans().map_err(|e| wrap(Fail::new("cleanup/delete_orphans-err", format!("{e:?}"))))?;
+            if !res.errors.is_empty() {
+                return Err(wrap(Fail::new("cleanup/errors", format!("delete_orphans reported errors {:?}", res.errors))));
+            }
+            if res.orphans_deleted != exp.orphaned.len() || res.invalid_files_removed != exp.invalid.len() || res.staging_files_removed != exp.staging.len() {
+                return Err(wrap(Fail::new("cleanup/counters-wrong", format!("delete_orphans counters {res:?} vs expected {}/{}/{}", exp.orphaned.len(), exp.invalid.len(), exp.staging.len()))));
+            }
+            let after = crate::e2::expected_scan(&db, &referenced, true);
+            if !after.orphaned.is_empty() || !after.invalid.is_empty() || !after.staging.is_empty() {
+                return Err(wrap(Fail::new("cleanup/garbage-left", format!("after delete_orphans {} orphans, {} invalid, {} staging files remain", after.orphaned.len(), after.invalid.len(), after.staging.len()))));
+            }
+            let before_full = crate::e2::expected_scan(&db, &referenced, true);
+            if after.missing != exp.missing || (case.verify && before_full.corrupted != exp.corrupted) {
+                return Err(wrap(Fail::new("cleanup/harmed-live-data", "delete_orphans changed referenced blobs")));
+            }
+            // C07 exactness restored: files == referenced minus missing
+            let files: std::collections::BTreeSet<String> = list_files(&casdir).into_keys().collect();
+            let want: std::collections::BTreeSet<String> = referenced.keys().filter(|h| !exp.missing.contains(*h)).map(rel_path_of).collect();
+            if files != want {
+                return Err(wrap(Fail::new("cleanup/not-exact-afterwards", format!("after clean-up cas/ holds {} files, expected {}", files.len(), want.len()))));
+            }
+            m.class("action_delete");
+        }
+        PlantAction::Quarantine => {
+            let q = scratch.path.join("quarantine");
+            let res = stats.quarantine_orphans(&q).map_err(|e| wrap(Fail::new("cleanup/quarantine-err", format!("{e:?}"))))?;
+            if !res.errors.is_empty() || res.orphans_quarantined != exp.orphaned.len() {
+                return Err(wrap(Fail::new("cleanup/quarantine-counters", format!("quarantine result {res:?}, expected {} orphans moved", exp.orphaned.len()))));
+            }
+            for h in &exp.orphaned {
+                let dst = q.join(hexs(h));
+                match std::fs::read(&dst) {
+                    Ok(d) if b3(&d) == *h => {}
+                    _ => return Err(wrap(Fail::new("cleanup/quarantine-file-wrong", format!("orphan {} is not in the quarantine directory with its bytes", &hexs(h)[..12])))),
+                }
+                if casdir.join(rel_path_of(h)).exists() {
+                    return Err(wrap(Fail::new("cleanup/quarantine-source-left", "quarantined orphan still exists under cas/")));
+                }
+            }
+            let after = crate::e2::expected_scan(&db, &referenced, true);
+            if after.missing != exp.missing || !after.orphaned.is_empty() {
+                return Err(wrap(Fail::new("cleanup/harmed-live-data", "quarantine changed referenced blobs or left orphans")));
+            }
+            m.class("action_quarantine");
+        }
+        PlantAction::DeleteOne { reported } => {
+            let target: Option<[u8; 32]> = if *reported { exp.orphaned.iter().next().copied() } else { referenced.keys().next().copied().or(Some([9u8; 32])) };
+            if let Some(h) = target {
+                let r = stats.delete_orphan(&BlobHash::from_bytes(h)).map_err(|e| wrap(Fail::new("cleanup/delete_orphan-err", format!("{e:?}"))))?;
+                let expect = *reported;
+                if r != expect {
+                    return Err(wrap(Fail::new("cleanup/delete_orphan-return", format!("delete_orphan returned {r} for a {} hash", if *reported { "reported orphan" } else { "non-reported" }))));
+                }
+                let exists = casdir.join(rel_path_of(&h)).exists();
+                if *reported && exists {
+                    return Err(wrap(Fail::new("cleanup/delete_orphan-no-effect", "delete_orphan returned true but the file is still there")));
+                }
+                if !*reported && referenced.contains_key(&h) && !exp.missing.contains(&h) && !exists {
+                    return Err(wrap(Fail::new("cleanup/harmed-live-data", "delete_orphan removed a referenced blob")));
+                }
+            }
+            m.class("action_delete_one");
+        }
+    }
+    // referenced, intact blobs still readable
+    for (k, h, _) in &live {
+        if exp.missing.contains(h) || exp.corrupted.contains(h) {
+            continue;
+        }
+        if !case.verify {
+            // without verification corrupted blobs are not reported; only check undamaged ones
+            let p = casdir.join(rel_path_of(h));
+            if std::fs::read(&p).map(|d| b3(&d) != *h).unwrap_or(true) {
+                continue;
+            }
+        }
+        match cas.get(k) {
+            Ok(Some(b)) if b3(&b) == *h => {}
+            other => return Err(wrap(Fail::new("cleanup/harmed-live-data", format!("get({k:?}) after clean-up: {:?}", other.map(|o| o.map(|b| b.len())))))),
+        }
+    }
+    for c in &classes {
+        m.class(&format!("dmg_{c}"));
+    }
+    if alias {
+        m.class("alias_class");
+    }
+    if classes.len() >= 2 || shares_dir {
+        m.nontrivial.push(hash_json(case));
+    }
+    Ok(m)
+}
+
+pub fn run_c08_planted(ctx: &Ctx, acc: &Mutex<Acc>) -> Option<Violation> {
+    let cases = ctx.tier.scale(100, 20);
+    let name = || "[a-z0-9]{1,6}".prop_map(|s: String| s);
+    let strat = move |with_alias: bool| {
+        let mut alts: Vec<(u32, BoxedStrategy<Dmg>)> = vec![
+            (6, (0u8..200).prop_map(|id| Dmg::Orphan { id }).boxed()),
+            (2, name().prop_map(|name| Dmg::StrayL0 { name }).boxed()),
+            (2, name().prop_map(|name| Dmg::StrayL1 { name }).boxed()),
+            (2, name().prop_map(|name| Dmg::StrayL2 { name }).boxed()),
+            (3, name().prop_map(|name| Dmg::Staging { name }).boxed()),
+            (3, (0u8..5).prop_map(|k| Dmg::DeleteBlob { k }).boxed()),
+            (2, (0u8..5).prop_map(|k| Dmg::Truncate { k }).boxed()),
+            (2, (0u8..5).prop_map(|k| Dmg::Extend { k }).boxed()),
+            (2, (0u8..5).prop_map(|k| Dmg::Alter { k }).boxed()),
+        ];
+        if with_alias {
+            alts.push((6, (0u8..200).prop_map(|id| Dmg::AliasShifted { id }).boxed()));
+            alts.push((6, (0u8..200).prop_map(|id| Dmg::AliasUpper { id }).boxed()));
+            alts.push((3, (0u8..5).prop_map(|k| Dmg::AliasUpperOfLive { k }).boxed()));
+        }
+        (
+            vec((0u8..5, 0u8..5), 0..7),
+            vec(proptest::strategy::Union::new_weighted(alts), 0..6),
+            any::<bool>(),
+            prop_oneof![4 => Just(PlantAction::Delete), 2 => Just(PlantAction::Quarantine), 2 => any::<bool>().prop_map(|r| PlantAction::DeleteOne { reported: r })],
+        )
+            .prop_map(|(puts, damage, verify, action)| PlantCase { puts, damage, verify, action })
+    };
+    if let Some(v) = campaign(ctx, acc, "planted-damage", "C08P", cases, 300, |_| strat(false), plant_run) {
+        return Some(v);
+    }
+    campaign(ctx, acc, "planted-alias-paths", "C08P", cases / 4, 300, |_| strat(true), plant_run)
+}
+
+pub fn replay_c08_planted(case: serde_json::Value) -> R<CaseMeta> {
+    plant_run(&serde_json::from_value(case).expect("harness: bad C08P case"))
+}
